@@ -12,7 +12,10 @@ EXPLANATION = (
     "group vectors up to length 3), should_run_with is its negation, the composite excludes iff a member does. A5: "
     "is_tag_negated agrees with the prefix table. A6: Number/BoolValueObject.matches: a conversion error gives a falsy "
     "result, otherwise the base comparison decides on the converted value. A7: a lazy (callable) value is evaluated on "
-    "every read and never replaced by its result. A8: group_active_tags_by_category evaluated on a tag list in which "
+    "every read and never replaced by its result; three successive lookups of a lazy category through an "
+    "ActiveTagValueProvider (get and []) and through a CompositeActiveTagValueProvider over a dict, over a nested provider "
+    "and with the owning provider in second position each evaluate the callable again (the composite's category cache must "
+    "not freeze a value). A8: group_active_tags_by_category evaluated on a tag list in which "
     "the tags of one category are separated by another category's tag yields exactly one group per category.")
 NOT_DECIDED = ("the comparison semantics of user-supplied compare functions, the regular expression that recognises "
                "active tags on concrete tag strings, custom prefixes/separators on concrete strings")
@@ -25,5 +28,5 @@ def run(chk, ix, tier):
     rules_active.check_exclude_composition(chk, ix)
     rules_active.check_negation_and_values(chk, ix)
     rules_active.check_grouping(chk, ix)
-    for r, n in (("A1", 100), ("A2", 5), ("A3", 10), ("A5", 4), ("A6", 4), ("A7", 2), ("A8", 1)):
+    for r, n in (("A1", 100), ("A2", 5), ("A3", 10), ("A5", 4), ("A6", 4), ("A7", 6), ("A8", 1)):
         chk.require_instances(r, n)
